@@ -601,10 +601,15 @@ theorem addVar_facts {var : String} {lvl : Option Int} {m m' : Mgr} {j : Nat}
       · simp [hv, hvl]
     · intro i hi; subst hi; simp at h3; omega
 
-theorem loadVars_spec (hA : AddVarInv) (levels : Bool) (n : Nat) :
-    ∀ (vs : List (String × Nat)) (lm : List (Nat × Nat)) (m : Mgr) (lm' : List (Nat × Nat)) (m' : Mgr),
-      loadVars levels n vs lm m = (.ok lm', m') → Inv m → VarsBij m.tbl →
-      Inv m' ∧ VarsBij m'.tbl ∧ m'.ctx = m.ctx ∧ m'.tbl.succ = m.tbl.succ ∧
+/-- the first loop of `_load_pickle`, for any property `J` that `add_var` preserves
+(`Inv` under `AddVarInv`; "no nodes yet" for a fresh manager) -/
+theorem loadVars_spec (J : Mgr → Prop) (levels : Bool) (n : Nat) :
+    ∀ (vs : List (String × Nat)),
+      (∀ (m : Mgr) (var : String) (i : Nat) (j : Nat) (m' : Mgr), (var, i) ∈ vs → J m →
+        addVar var (if levels = true then some (i : Int) else none) m = (.ok j, m') → J m') →
+      ∀ (lm : List (Nat × Nat)) (m : Mgr) (lm' : List (Nat × Nat)) (m' : Mgr),
+      loadVars levels n vs lm m = (.ok lm', m') → J m → VarsBij m.tbl →
+      J m' ∧ VarsBij m'.tbl ∧ m'.ctx = m.ctx ∧ m'.tbl.succ = m.tbl.succ ∧
       (∀ (v : String) (l : Nat), m.tbl.vars[v]? = some l → m'.tbl.vars[v]? = some l) ∧
       (∀ i j, lm'.lookup i = some j →
         lm.lookup i = some j ∨ ∃ var, (var, i) ∈ vs ∧ m'.tbl.vars[var]? = some j) ∧
@@ -614,14 +619,14 @@ theorem loadVars_spec (hA : AddVarInv) (levels : Bool) (n : Nat) :
   intro vs
   induction vs with
   | nil =>
-    intro lm m lm' m' h hI hb
+    intro _ lm m lm' m' h hI hb
     simp [loadVars] at h
     obtain ⟨h1, h2⟩ := h
     subst h1 h2
     exact ⟨hI, hb, rfl, rfl, fun _ _ h => h, fun _ _ h => Or.inl h, by simp, fun _ h => h,
       fun _ _ _ h => Or.inl h⟩
   | cons x rest ih =>
-    intro lm m lm' m' h hI hb
+    intro hA lm m lm' m' h hI hb
     obtain ⟨var, i⟩ := x
     rw [loadVars] at h
     dsimp only at h
@@ -634,9 +639,11 @@ theorem loadVars_spec (hA : AddVarInv) (levels : Bool) (n : Nat) :
         | error e => simp at h
         | ok j =>
           dsimp only at h
-          have I1 := hA m var _ j m1 hI hav
+          have I1 := hA m var i j m1 List.mem_cons_self hI hav
           obtain ⟨B1, V1, M1, C1, S1, L1⟩ := addVar_facts hav hb
-          obtain ⟨I2, B2, C2, S2, M2, R2, D2, K2, L2⟩ := ih ((i, j) :: lm) m1 lm' m' h I1 B1
+          obtain ⟨I2, B2, C2, S2, M2, R2, D2, K2, L2⟩ :=
+            ih (fun m var i j m' hmem => hA m var i j m' (List.mem_cons_of_mem _ hmem))
+              ((i, j) :: lm) m1 lm' m' h I1 B1
           refine ⟨I2, B2, C2.trans C1, S2.trans S1, fun v l hvl => M2 v l (M1 v l hvl), ?_, ?_, ?_, ?_⟩
           · intro i' j' hl
             rcases R2 i' j' hl with h' | ⟨v, hv, hv'⟩
@@ -767,8 +774,11 @@ map is increasing (automatic for `levels=True`), then the load succeeds, the man
 invariant is kept, old nodes are untouched, and the returned container has the shape of the
 file's `roots` with every member denoting — as a function of variable NAMES — what the
 file says. -/
-theorem pickle_load_of_specs (hF : FoaSpec) (hA : AddVarInv) (f : PickleFile) (levels : Bool)
-    (m : Mgr) (hI : Inv m) (hb : VarsBij m.tbl) (hc : m.ctx = false)
+theorem pickle_load_of_specs (hF : FoaSpec) (J : Mgr → Prop) (f : PickleFile) (levels : Bool)
+    (hA : ∀ (m : Mgr) (var : String) (i : Nat) (j : Nat) (m' : Mgr), (var, i) ∈ f.vars → J m →
+      addVar var (if levels = true then some (i : Int) else none) m = (.ok j, m') → J m')
+    (hJI : ∀ m, J m → Inv m)
+    (m : Mgr) (hI : J m) (hb : VarsBij m.tbl) (hc : m.ctx = false)
     (hwf : PickleWF f) (hr : RootsOK f)
     (lm : List (Nat × Nat)) (m1 : Mgr)
     (hv : loadVars levels f.vars.length f.vars [] m = (.ok lm, m1))
@@ -776,7 +786,9 @@ theorem pickle_load_of_specs (hF : FoaSpec) (hA : AddVarInv) (f : PickleFile) (l
     ∃ roots' m', loadPickle f levels m = (.ok roots', m') ∧ Inv m' ∧ VarsBij m'.tbl ∧
       m'.ctx = false ∧ (∀ u n, m.tbl.node? u = some n → m'.tbl.node? u = some n) ∧
       RootsRel (fun u r => m'.tbl.Mem r ∧ ∀ α, denBy m'.tbl r α = evalPickle f u α) f.roots roots' := by
-  obtain ⟨I1, B1, C1, S1, M1, R1, D1, _, L1⟩ := loadVars_spec hA levels f.vars.length f.vars [] m lm m1 hv hI hb
+  obtain ⟨J1, B1, C1, S1, M1, R1, D1, _, L1⟩ :=
+    loadVars_spec J levels f.vars.length f.vars hA [] m lm m1 hv hI hb
+  have I1 := hJI m1 J1
   have hl : LMOK f.succ lm m1.nvars := by
     constructor
     · intro k e he h1
@@ -816,6 +828,594 @@ theorem pickle_load_of_specs (hF : FoaSpec) (hA : AddVarInv) (f : PickleFile) (l
       unfold denBy evalPickle
       rw [h2, evalL_eq_evalN f lm m'.tbl _ hl hn]
     exact RR.imp conv
+
+
+/-! ### `descendants` is closed under successors -/
+
+theorem mem_insertSorted (a x : Nat) (l : List Nat) : x ∈ insertSorted a l ↔ x = a ∨ x ∈ l := by
+  induction l with
+  | nil => simp [insertSorted]
+  | cons b l ih =>
+    unfold insertSorted
+    split
+    · simp
+    · simp [ih]; constructor
+      · rintro (h | h | h) <;> simp [h]
+      · rintro (h | h | h) <;> simp [h]
+
+theorem mem_sortNat (x : Nat) (l : List Nat) : x ∈ sortNat l ↔ x ∈ l := by
+  unfold sortNat
+  induction l with
+  | nil => simp
+  | cons a l ih => simp [List.foldr_cons, mem_insertSorted, ih]
+
+/-- every listed non-terminal node has its successors listed -/
+def Closed (t : Tbl) (vis : List Nat) : Prop :=
+  ∀ r ∈ vis, r ≠ 1 → ∃ n, t.succ[r]? = some n ∧
+    (n.lo.natAbs = 1 ∨ n.lo.natAbs ∈ vis) ∧ (n.hi.natAbs = 1 ∨ n.hi.natAbs ∈ vis)
+
+theorem Closed.mono {t : Tbl} {vis vis' : List Nat} (h : Closed t vis) (hs : ∀ x ∈ vis, x ∈ vis')
+    (hnew : ∀ r ∈ vis', r ∉ vis → r ≠ 1 → ∃ n, t.succ[r]? = some n ∧
+      (n.lo.natAbs = 1 ∨ n.lo.natAbs ∈ vis') ∧ (n.hi.natAbs = 1 ∨ n.hi.natAbs ∈ vis')) :
+    Closed t vis' := by
+  intro r hr h1
+  by_cases hin : r ∈ vis
+  · obtain ⟨n, hn, h2, h3⟩ := h r hin h1
+    exact ⟨n, hn, h2.imp id (hs _), h3.imp id (hs _)⟩
+  · exact hnew r hr hin h1
+
+theorem descendantsF_spec (t : Tbl) :
+    ∀ f u vis vis', descendantsF f t u vis = .ok vis' → Closed t vis →
+      Closed t vis' ∧ (∀ x ∈ vis, x ∈ vis') ∧ (u.natAbs = 1 ∨ u.natAbs ∈ vis') := by
+  intro f
+  induction f with
+  | zero => intro u vis vis' h; simp [descendantsF] at h
+  | succ f ih =>
+    intro u vis vis' h hc
+    rw [descendantsF] at h
+    by_cases h0 : (u.natAbs = 1 || vis.contains u.natAbs) = true
+    · rw [if_pos h0] at h
+      cases h
+      refine ⟨hc, fun _ h => h, ?_⟩
+      simp at h0
+      exact h0
+    · rw [if_neg h0] at h
+      cases hn : t.succ[u.natAbs]? with
+      | none => simp [hn] at h
+      | some n =>
+        simp only [hn] at h
+        split at h
+        · cases h
+        · cases h1 : descendantsF f t n.lo vis with
+          | error e => simp [h1] at h
+          | ok vis1 =>
+            simp only [h1] at h
+            cases h2 : descendantsF f t n.hi vis1 with
+            | error e => simp [h2] at h
+            | ok vis2 =>
+              simp only [h2] at h
+              cases h
+              obtain ⟨c1, s1, m1⟩ := ih _ _ _ h1 hc
+              obtain ⟨c2, s2, m2⟩ := ih _ _ _ h2 c1
+              have m1' : n.lo.natAbs = 1 ∨ n.lo.natAbs ∈ vis2 := m1.imp id (s2 _)
+              by_cases hin : vis2.contains u.natAbs = true
+              · rw [if_pos hin]
+                exact ⟨c2, fun x hx => s2 x (s1 x hx), Or.inr (by simpa using hin)⟩
+              · rw [if_neg hin]
+                refine ⟨?_, fun x hx => List.mem_cons_of_mem _ (s2 x (s1 x hx)), Or.inr List.mem_cons_self⟩
+                apply c2.mono (fun x hx => List.mem_cons_of_mem _ hx)
+                intro r hr hnot _
+                rcases List.mem_cons.mp hr with h' | h'
+                · subst h'
+                  exact ⟨n, hn, m1'.imp id (List.mem_cons_of_mem _), m2.imp id (List.mem_cons_of_mem _)⟩
+                · exact absurd h' hnot
+
+theorem descendants_go_spec (t : Tbl) :
+    ∀ roots vis vis', descendants.go t roots vis = .ok vis' → Closed t vis →
+      Closed t vis' ∧ (∀ x ∈ vis, x ∈ vis') ∧ (∀ u ∈ roots, u.natAbs = 1 ∨ u.natAbs ∈ vis') ∧
+      (roots ≠ [] → 1 ∈ vis') := by
+  intro roots
+  induction roots with
+  | nil =>
+    intro vis vis' h hc
+    simp [descendants.go] at h
+    subst h
+    exact ⟨hc, fun _ h => h, by simp, by simp⟩
+  | cons u rest ih =>
+    intro vis vis' h hc
+    rw [descendants.go] at h
+    generalize hv0 : (@_root_.ite _ (vis.contains 1 = true) _ vis (1 :: vis)) = vis0 at h
+    have hc0 : Closed t vis0 := by
+      subst hv0
+      split
+      · exact hc
+      · apply hc.mono (fun x hx => List.mem_cons_of_mem _ hx)
+        intro r hr hnot h1
+        rcases List.mem_cons.mp hr with h' | h'
+        · exact absurd h' h1
+        · exact absurd h' hnot
+    have h10 : 1 ∈ vis0 := by
+      subst hv0
+      split
+      · rename_i h'; simpa using h'
+      · exact List.mem_cons_self
+    have hs0 : ∀ x ∈ vis, x ∈ vis0 := by
+      intro x hx; subst hv0; split
+      · exact hx
+      · exact List.mem_cons_of_mem _ hx
+    cases h1 : descendantsF (t.nvars + 2) t u vis0 with
+    | error e => simp [h1] at h
+    | ok vis1 =>
+      simp only [h1] at h
+      obtain ⟨c1, s1, m1⟩ := descendantsF_spec t _ _ _ _ h1 hc0
+      obtain ⟨c2, s2, m2, _⟩ := ih _ _ h c1
+      refine ⟨c2, fun x hx => s2 x (s1 x (hs0 x hx)), ?_, fun _ => s2 1 (s1 1 h10)⟩
+      intro x hx
+      rcases List.mem_cons.mp hx with h' | h'
+      · subst h'; exact m1.imp id (s2 _)
+      · exact m2 x h'
+
+theorem descendants_spec (t : Tbl) (roots : List Int) (nodes : List Nat)
+    (h : descendants t roots = .ok nodes) :
+    Closed t nodes ∧ (∀ u ∈ roots, u.natAbs = 1 ∨ u.natAbs ∈ nodes) ∧ (roots ≠ [] → 1 ∈ nodes) := by
+  unfold descendants at h
+  cases h1 : descendants.go t roots [] with
+  | error e => simp [h1] at h
+  | ok vis =>
+    simp only [h1] at h
+    cases h
+    obtain ⟨c, _, m, o⟩ := descendants_go_spec t roots [] vis h1 (by intro r hr; simp at hr)
+    refine ⟨?_, ?_, ?_⟩
+    · intro r hr h1'
+      rw [mem_sortNat] at hr
+      obtain ⟨n, hn, a, b⟩ := c r hr h1'
+      exact ⟨n, hn, a.imp id (by rw [mem_sortNat]; exact id), b.imp id (by rw [mem_sortNat]; exact id)⟩
+    · intro u hu; exact (m u hu).imp id (by rw [mem_sortNat]; exact id)
+    · intro hne; rw [mem_sortNat]; exact o hne
+
+
+/-! ### `_dump_bdd`: the content written -/
+
+/-- how the levels are named: inverse maps, no gaps, every level named -/
+structure VarsOK (t : Tbl) : Prop where
+  bij : VarsBij t
+  contig : Contig t
+  named : ∀ l, l < t.nvars → (t.l2v[l]?).isSome
+
+theorem entryOf_ok {t : Tbl} {k : Nat} {e : PEntry} (h : entryOf t k = .ok e) :
+    e.id = k ∧ (k = 1 → e = ⟨1, t.nvars, none, none⟩) ∧
+    (k ≠ 1 → ∃ n, t.succ[k]? = some n ∧ e = ⟨k, n.lvl, some n.lo, some n.hi⟩) := by
+  unfold entryOf at h
+  by_cases h1 : k = 1
+  · simp [h1] at h
+    subst h h1
+    exact ⟨rfl, fun _ => rfl, fun h => absurd rfl h⟩
+  · simp only [h1, if_false] at h
+    cases hn : t.succ[k]? with
+    | none => simp [hn] at h
+    | some n =>
+      simp [hn] at h
+      subst h
+      exact ⟨rfl, fun h => absurd h h1, fun _ => ⟨n, rfl, rfl⟩⟩
+
+theorem mapM_entryOf_find (t : Tbl) :
+    ∀ (nodes : List Nat) (succ : List PEntry), nodes.mapM (entryOf t) = .ok succ →
+      (∀ k ∈ nodes, ∃ e, PEntry.find succ k = some e ∧ entryOf t k = .ok e) ∧
+      (∀ k, k ∉ nodes → PEntry.find succ k = none) := by
+  intro nodes
+  induction nodes with
+  | nil =>
+    intro succ h
+    simp [List.mapM_nil, pure, Except.pure] at h
+    subst h
+    exact ⟨by simp, by intro k _; rfl⟩
+  | cons x xs ih =>
+    intro succ h
+    rw [List.mapM_cons] at h
+    cases hx : entryOf t x with
+    | error e => simp [hx, bind, Except.bind] at h
+    | ok ex =>
+      cases hxs : xs.mapM (entryOf t) with
+      | error e => simp [hx, hxs, bind, Except.bind] at h
+      | ok exs =>
+        simp [hx, hxs, bind, Except.bind, pure, Except.pure] at h
+        subst h
+        obtain ⟨a, b⟩ := ih exs hxs
+        have hid := (entryOf_ok hx).1
+        constructor
+        · intro k hk
+          by_cases hkx : x = k
+          · subst hkx
+            exact ⟨ex, by simp [PEntry.find, hid], hx⟩
+          · rcases List.mem_cons.mp hk with h' | h'
+            · exact absurd h'.symm hkx
+            · obtain ⟨e, he, he'⟩ := a k h'
+              refine ⟨e, ?_, he'⟩
+              unfold PEntry.find at he ⊢
+              rw [List.find?_cons]
+              have : (ex.id == k) = false := by simp [hid, hkx]
+              rw [this]; exact he
+        · intro k hk
+          have hkx : x ≠ k := by intro h'; subst h'; exact hk List.mem_cons_self
+          have hk' : k ∉ xs := fun h' => hk (List.mem_cons_of_mem _ h')
+          have := b k hk'
+          unfold PEntry.find at this ⊢
+          rw [List.find?_cons]
+          have h2 : (ex.id == k) = false := by simp [hid, hkx]
+          rw [h2]; exact this
+
+theorem dumpNodes_closed {t : Tbl} (hw : WF t) {roots : Roots} {nodes : List Nat}
+    (h : dumpNodes t roots = .ok nodes) :
+    Closed t nodes ∧ (∀ u ∈ roots.values, u.natAbs = 1 ∨ u.natAbs ∈ nodes) := by
+  cases roots with
+  | none =>
+    simp [dumpNodes, allNodes] at h
+    subst h
+    constructor
+    · intro r hr h1
+      have hr' : r ∈ t.succ.keys := by
+        rcases List.mem_cons.mp hr with h' | h'
+        · exact absurd h' h1
+        · exact h'
+      rw [TreeMap.mem_keys, ← TreeMap.contains_iff_mem, TreeMap.contains_eq_isSome_getElem?] at hr'
+      obtain ⟨n, hn⟩ := Option.isSome_iff_exists.mp hr'
+      have key : ∀ c : Int, t.Mem c → c.natAbs = 1 ∨ c.natAbs ∈ 1 :: t.succ.keys := by
+        intro c hc
+        rcases hc with hc | hc
+        · exact Or.inl hc
+        · right
+          apply List.mem_cons_of_mem
+          rw [TreeMap.mem_keys, ← TreeMap.contains_iff_mem, TreeMap.contains_eq_isSome_getElem?]
+          exact hc
+      exact ⟨n, hn, key _ (hw.lo_mem _ _ hn), key _ (hw.hi_mem _ _ hn)⟩
+    · intro u hu; simp [Roots.values] at hu
+  | list l =>
+    have := descendants_spec t l nodes h
+    exact ⟨this.1, this.2.1⟩
+  | dict d =>
+    have := descendants_spec t (Roots.dict d).values nodes h
+    exact ⟨this.1, this.2.1⟩
+
+theorem dumpPickle_parts {m : Mgr} {roots : Roots} {f : PickleFile} (h : dumpPickle m roots = .ok f) :
+    f.vars = m.tbl.vars.toList ∧ f.roots = roots ∧
+    ∃ nodes, dumpNodes m.tbl roots = .ok nodes ∧ nodes.mapM (entryOf m.tbl) = .ok f.succ := by
+  unfold dumpPickle at h
+  cases h1 : dumpNodes m.tbl roots with
+  | error e => simp [h1] at h
+  | ok nodes =>
+    simp only [h1] at h
+    cases h2 : nodes.mapM (entryOf m.tbl) with
+    | error e => simp [h2] at h
+    | ok succ =>
+      simp only [h2] at h
+      cases h
+      exact ⟨rfl, rfl, nodes, rfl, h2⟩
+
+/-- list/dict shape of the roots is stored as given -/
+theorem roots_container {m : Mgr} {roots : Roots} {f : PickleFile} (h : dumpPickle m roots = .ok f) :
+    f.roots = roots := (dumpPickle_parts h).2.1
+
+theorem nameAt_of_vars {t : Tbl} (hv : VarsOK t) {f : PickleFile} (hf : f.vars = t.vars.toList) :
+    (∀ var i, (var, i) ∈ f.vars → f.nameAt i = some var) ∧
+    (∀ l x, t.l2v[l]? = some x → f.nameAt l = some x) := by
+  have key : ∀ var i, (var, i) ∈ f.vars → f.nameAt i = some var := by
+    intro var i hmem
+    unfold PickleFile.nameAt
+    have hex : (f.vars.find? (fun p => p.2 == i)).isSome := by
+      rw [List.find?_isSome]; exact ⟨(var, i), hmem, by simp⟩
+    obtain ⟨⟨y, i'⟩, hy⟩ := Option.isSome_iff_exists.mp hex
+    have hp := List.find?_some hy
+    have hm := List.mem_of_find?_eq_some hy
+    simp at hp
+    subst hp
+    rw [hf, TreeMap.mem_toList_iff_getElem?_eq_some] at hm hmem
+    have h1 := (hv.bij y i').mp hm
+    have h2 := (hv.bij var i').mp hmem
+    rw [h1] at h2
+    cases h2
+    simp [hy]
+  refine ⟨key, ?_⟩
+  intro l x hx
+  apply key
+  rw [hf, TreeMap.mem_toList_iff_getElem?_eq_some]
+  exact (hv.bij x l).mpr hx
+
+
+/-- what `find` returns on a dumped `succ` -/
+theorem dump_find {m : Mgr} {roots : Roots} {f : PickleFile} (h : dumpPickle m roots = .ok f) :
+    ∃ nodes, dumpNodes m.tbl roots = .ok nodes ∧
+      (∀ k ∈ nodes, k ≠ 1 → ∃ n, m.tbl.succ[k]? = some n ∧
+        PEntry.find f.succ k = some ⟨k, n.lvl, some n.lo, some n.hi⟩) ∧
+      (∀ k, k ∉ nodes → PEntry.find f.succ k = none) := by
+  obtain ⟨_, _, nodes, hn, hm⟩ := dumpPickle_parts h
+  obtain ⟨a, b⟩ := mapM_entryOf_find m.tbl nodes f.succ hm
+  refine ⟨nodes, hn, ?_, b⟩
+  intro k hk h1
+  obtain ⟨e, he, he'⟩ := a k hk
+  obtain ⟨n, hn', hen⟩ := (entryOf_ok he').2.2 h1
+  exact ⟨n, hn', by rw [he, hen]⟩
+
+theorem length_vars_toList (t : Tbl) : t.vars.toList.length = t.nvars := by
+  unfold Tbl.nvars; exact TreeMap.length_toList
+
+/-- the content `_dump_bdd` writes for a manager satisfying the invariant is well formed -/
+theorem dumpPickle_wf {m : Mgr} (hI : Inv m) (hv : VarsOK m.tbl) {roots : Roots} {f : PickleFile}
+    (h : dumpPickle m roots = .ok f) : PickleWF f := by
+  obtain ⟨nodes, hn, hin, hout⟩ := dump_find h
+  obtain ⟨hvars, _, _⟩ := dumpPickle_parts h
+  obtain ⟨hcl, _⟩ := dumpNodes_closed hI.wf.toWF hn
+  have hw := hI.wf.toWF
+  have hlen : f.vars.length = m.tbl.nvars := by rw [hvars]; exact length_vars_toList _
+  have hfind : ∀ k e, PEntry.find f.succ k = some e → k ≠ 1 →
+      k ∈ nodes ∧ ∃ n, m.tbl.succ[k]? = some n ∧ e = ⟨k, n.lvl, some n.lo, some n.hi⟩ := by
+    intro k e he h1
+    by_cases hk : k ∈ nodes
+    · obtain ⟨n, hn', hf⟩ := hin k hk h1
+      rw [hf] at he
+      cases he
+      exact ⟨hk, n, hn', rfl⟩
+    · rw [hout k hk] at he; cases he
+  have hchild : ∀ (c : Int) (l : Nat), m.tbl.Mem c → (c.natAbs = 1 ∨ c.natAbs ∈ nodes) →
+      l < m.tbl.levelOf c → FRef f.succ c ∧ l < flevel f.succ f.vars.length c := by
+    intro c l hc hcn hl
+    by_cases h1 : c.natAbs = 1
+    · refine ⟨Or.inl h1, ?_⟩
+      rw [levelOf_term _ _ h1] at hl
+      simp [flevel, h1, hlen, hl]
+    · rcases hcn with hcn | hcn
+      · exact absurd hcn h1
+      obtain ⟨n, hn', hf⟩ := hin _ hcn h1
+      refine ⟨Or.inr (by simp [hf]), ?_⟩
+      have : m.tbl.levelOf c = n.lvl := levelOf_node m.tbl c n h1 hn'
+      simp [flevel, h1, hf, ← this, hl]
+  refine ⟨⟨?_⟩, (nameAt_of_vars hv hvars).1, ?_⟩
+  · intro k e he h1
+    obtain ⟨hk, n, hn', rfl⟩ := hfind k e he h1
+    obtain ⟨n', hn'', clo, chi⟩ := hcl k hk h1
+    rw [hn'] at hn''; cases hn''
+    have hnode : m.tbl.node? k = some n := hn'
+    obtain ⟨r1, l1⟩ := hchild n.lo n.lvl (hw.lo_mem _ _ hnode) clo (hw.lo_lt _ _ hnode)
+    obtain ⟨r2, l2⟩ := hchild n.hi n.lvl (hw.hi_mem _ _ hnode) chi (hw.hi_lt _ _ hnode)
+    exact ⟨n.lo, n.hi, rfl, rfl, by rw [hlen]; exact hw.lvl_lt _ _ hnode, hw.hi_pos _ _ hnode,
+      hw.ge_two _ _ hnode, r1, r2, l1, l2⟩
+  · intro k e he h1
+    obtain ⟨_, n, hn', rfl⟩ := hfind k e he h1
+    have hnode : m.tbl.node? k = some n := hn'
+    obtain ⟨x, hx⟩ := Option.isSome_iff_exists.mp (hv.named _ (hw.lvl_lt _ _ hnode))
+    refine ⟨x, ?_⟩
+    show (x, n.lvl) ∈ f.vars
+    rw [hvars, TreeMap.mem_toList_iff_getElem?_eq_some]
+    exact (hv.bij x n.lvl).mpr hx
+
+/-- the dumped content denotes, by variable name, what the manager's references denote -/
+theorem dumpPickle_eval {m : Mgr} (hI : Inv m) (hv : VarsOK m.tbl) {roots : Roots} {f : PickleFile}
+    (h : dumpPickle m roots = .ok f) (α : String → Bool) :
+    ∀ u ∈ roots.values, evalPickle f u α = denBy m.tbl u α := by
+  obtain ⟨nodes, hn, hin, hout⟩ := dump_find h
+  obtain ⟨hvars, _, _⟩ := dumpPickle_parts h
+  obtain ⟨hcl, hroots⟩ := dumpNodes_closed hI.wf.toWF hn
+  have hw := hI.wf.toWF
+  have hlen : f.vars.length = m.tbl.nvars := by rw [hvars]; exact length_vars_toList _
+  have key : ∀ k u, (u.natAbs = 1 ∨ u.natAbs ∈ nodes) →
+      evalN f k u α = denF m.tbl k u (m.tbl.asg α) := by
+    intro k
+    induction k with
+    | zero => intro u _; rfl
+    | succ k ih =>
+      intro u hu
+      rw [evalN, denF]
+      by_cases h1 : u.natAbs = 1
+      · simp [h1]
+      · simp only [h1, if_false]
+        rcases hu with hu | hu
+        · exact absurd hu h1
+        obtain ⟨n, hn', hf⟩ := hin _ hu h1
+        obtain ⟨n', hn'', clo, chi⟩ := hcl _ hu h1
+        rw [hn'] at hn''; cases hn''
+        have hnode : m.tbl.node? u.natAbs = some n := hn'
+        obtain ⟨x, hx⟩ := Option.isSome_iff_exists.mp (hv.named _ (hw.lvl_lt _ _ hnode))
+        have hname := (nameAt_of_vars hv hvars).2 _ _ hx
+        simp only [hf, hnode, hname]
+        rw [ih _ chi, ih _ clo]
+        have : m.tbl.asg α n.lvl = α x := by simp [Tbl.asg, hx]
+        rw [this]
+  intro u hu
+  unfold evalPickle denBy den
+  rw [hlen]
+  exact key _ u (hroots u hu)
+
+theorem dumpPickle_rootsOK {m : Mgr} (hI : Inv m) {roots : Roots} {f : PickleFile}
+    (h : dumpPickle m roots = .ok f) (hsome : roots ≠ .none)
+    (hnc : ∀ u ∈ roots.values, u.natAbs ≠ 1) : RootsOK f := by
+  obtain ⟨nodes, hn, hin, hout⟩ := dump_find h
+  obtain ⟨_, hr, _⟩ := dumpPickle_parts h
+  obtain ⟨_, hroots⟩ := dumpNodes_closed hI.wf.toWF hn
+  refine ⟨by rw [hr]; exact hsome, ?_⟩
+  intro u hu
+  rw [hr] at hu
+  have h1 := hnc u hu
+  refine ⟨h1, ?_⟩
+  rcases hroots u hu with h' | h'
+  · exact absurd h' h1
+  · obtain ⟨n, _, hf⟩ := hin _ h' h1
+    exact ⟨_, List.mem_of_find?_eq_some hf, rfl⟩
+
+
+/-! ### pickle round trips -/
+
+theorem Forall2.imp_mem {α β : Type} {R S : α → β → Prop} :
+    ∀ {l : List α} {l' : List β}, Forall2 R l l' → (∀ a ∈ l, ∀ b, R a b → S a b) → Forall2 S l l' := by
+  intro l l' hl
+  induction hl with
+  | nil => intro _; exact .nil
+  | cons a _ ih =>
+    intro h
+    exact .cons (h _ List.mem_cons_self _ a) (ih fun x hx => h x (List.mem_cons_of_mem _ hx))
+
+theorem RootsRel.imp_mem {P Q : Int → Int → Prop} {a b : Roots} (hr : RootsRel P a b)
+    (h : ∀ u ∈ a.values, ∀ r, P u r → Q u r) : RootsRel Q a b := by
+  cases hr with
+  | list hl => exact .list (hl.imp_mem h)
+  | dict hd =>
+    refine .dict (hd.imp_mem ?_)
+    intro x hx y hxy
+    exact ⟨hxy.1, h _ (by simp [Roots.values]; exact ⟨x.1, hx⟩) _ hxy.2⟩
+
+/-- the result of a load, compared with the functions that were dumped: same container
+shape (list positions / dict keys), each member a node of the receiving manager that
+denotes — by variable name — the dumped function -/
+def LoadedAs (src : Tbl) (roots : Roots) (tgt : Tbl) (roots' : Roots) : Prop :=
+  RootsRel (fun u r => tgt.Mem r ∧ ∀ α, denBy tgt r α = denBy src u α) roots roots'
+
+/-- C12, pickle, general form: dump `roots` of `src`, load the content into `tgt`.
+Hypotheses beyond the invariants: the roots are a container (F2) of non-constant
+references (F11); the loader accepts the variables and leaves no level gap (F7); for
+`levels=False` the level map is increasing (F3). -/
+theorem pickle_roundtrip_of_specs (hF : FoaSpec) (hA : AddVarInv)
+    (src : Mgr) (hIs : Inv src) (hvs : VarsOK src.tbl)
+    (roots : Roots) (hsome : roots ≠ .none) (hnc : ∀ u ∈ roots.values, u.natAbs ≠ 1)
+    (f : PickleFile) (hd : dumpPickle src roots = .ok f)
+    (levels : Bool) (tgt : Mgr) (hI : Inv tgt) (hb : VarsBij tgt.tbl) (hc : tgt.ctx = false)
+    (lm : List (Nat × Nat)) (m1 : Mgr)
+    (hv : loadVars levels f.vars.length f.vars [] tgt = (.ok lm, m1))
+    (hg : Contig m1.tbl) (hm : levels = false → MonoMap lm) :
+    ∃ roots' m', loadPickle f levels tgt = (.ok roots', m') ∧ Inv m' ∧ VarsBij m'.tbl ∧
+      (∀ u n, tgt.tbl.node? u = some n → m'.tbl.node? u = some n) ∧
+      LoadedAs src.tbl roots m'.tbl roots' := by
+  obtain ⟨roots', m', e, I, B, _, N, R⟩ :=
+    pickle_load_of_specs hF Inv f levels (fun m var _ j m' _ hJ h => hA m var _ j m' hJ h) (fun _ h => h) tgt hI hb hc (dumpPickle_wf hIs hvs hd)
+      (dumpPickle_rootsOK hIs hd hsome hnc) lm m1 hv hg hm
+  refine ⟨roots', m', e, I, B, N, ?_⟩
+  rw [roots_container hd] at R
+  apply R.imp_mem
+  intro u hu r ⟨h1, h2⟩
+  exact ⟨h1, fun α => by rw [h2 α, dumpPickle_eval hIs hvs hd α u hu]⟩
+
+
+/-- when the receiving manager already declares the variables at the levels of the file,
+the first loop of `_load_pickle` changes nothing -/
+theorem loadVars_declared (levels : Bool) (n : Nat) :
+    ∀ (vs : List (String × Nat)) (lm : List (Nat × Nat)) (m : Mgr),
+      (∀ var i, (var, i) ∈ vs → m.tbl.vars[var]? = some i ∧ i < n) →
+      ∃ lm', loadVars levels n vs lm m = (.ok lm', m) := by
+  intro vs
+  induction vs with
+  | nil => intro lm m _; exact ⟨lm, rfl⟩
+  | cons x rest ih =>
+    intro lm m h
+    obtain ⟨var, i⟩ := x
+    obtain ⟨h1, h2⟩ := h var i List.mem_cons_self
+    have hav : addVar var (if levels = true then some (i : Int) else none) m = (.ok i, m) := by
+      cases levels <;> simp [addVar, bind, M.bind', M.get, h1, pure, M.pure']
+    obtain ⟨lm', h'⟩ := ih ((i, i) :: lm) m (fun v k hk => h v k (List.mem_cons_of_mem _ hk))
+    refine ⟨lm', ?_⟩
+    rw [loadVars]
+    simp only [h2, not_true_eq_false, if_false, hav]
+    exact h'
+
+/-- C12, pickle, into a manager that already declares the variables at the same levels
+(in particular: into the SAME manager), either value of `levels`.  Only `FoaSpec` is used. -/
+theorem pickle_roundtrip_declared (hF : FoaSpec)
+    (src : Mgr) (hIs : Inv src) (hvs : VarsOK src.tbl)
+    (roots : Roots) (hsome : roots ≠ .none) (hnc : ∀ u ∈ roots.values, u.natAbs ≠ 1)
+    (f : PickleFile) (hd : dumpPickle src roots = .ok f)
+    (levels : Bool) (tgt : Mgr) (hI : Inv tgt) (hb : VarsBij tgt.tbl) (hg : Contig tgt.tbl)
+    (hc : tgt.ctx = false)
+    (hdecl : ∀ (var : String) (i : Nat), src.tbl.vars[var]? = some i → tgt.tbl.vars[var]? = some i) :
+    ∃ roots' m', loadPickle f levels tgt = (.ok roots', m') ∧ Inv m' ∧ VarsBij m'.tbl ∧
+      (∀ u n, tgt.tbl.node? u = some n → m'.tbl.node? u = some n) ∧
+      LoadedAs src.tbl roots m'.tbl roots' := by
+  obtain ⟨hvars, _, _⟩ := dumpPickle_parts hd
+  have hlen : f.vars.length = src.tbl.nvars := by rw [hvars]; exact length_vars_toList _
+  have hmem : ∀ var i, (var, i) ∈ f.vars → tgt.tbl.vars[var]? = some i ∧ i < f.vars.length := by
+    intro var i h
+    rw [hvars, TreeMap.mem_toList_iff_getElem?_eq_some] at h
+    exact ⟨hdecl var i h, by rw [hlen]; exact hvs.contig var i h⟩
+  obtain ⟨lm, hv⟩ := loadVars_declared levels f.vars.length f.vars [] tgt hmem
+  have hJ : ∀ (m : Mgr) (var : String) (i j : Nat) (m' : Mgr), (var, i) ∈ f.vars → m = tgt →
+      addVar var (if levels = true then some (i : Int) else none) m = (.ok j, m') → m' = tgt := by
+    intro m var i j m' hin hm hav
+    subst hm
+    rcases addVar_cases hav with ⟨_, h2, _⟩ | ⟨h1, _⟩
+    · exact h2
+    · rw [(hmem var i hin).1] at h1; cases h1
+  obtain ⟨_, _, _, _, _, R1, _⟩ :=
+    loadVars_spec (· = tgt) levels f.vars.length f.vars hJ [] tgt lm tgt hv rfl hb
+  have hmono : MonoMap lm := by
+    intro i i' j j' h1 h2 hlt
+    rcases R1 _ _ h1 with h | ⟨v, hv1, hv2⟩
+    · simp at h
+    rcases R1 _ _ h2 with h | ⟨v', hv1', hv2'⟩
+    · simp at h
+    rw [(hmem v i hv1).1] at hv2
+    rw [(hmem v' i' hv1').1] at hv2'
+    cases hv2; cases hv2'
+    exact hlt
+  obtain ⟨roots', m', e, I, B, _, N, R⟩ :=
+    pickle_load_of_specs hF (· = tgt) f levels hJ (fun _ h => h ▸ hI) tgt rfl hb hc
+      (dumpPickle_wf hIs hvs hd) (dumpPickle_rootsOK hIs hd hsome hnc) lm tgt hv hg (fun _ => hmono)
+  refine ⟨roots', m', e, I, B, N, ?_⟩
+  rw [roots_container hd] at R
+  apply R.imp_mem
+  intro u hu r ⟨h1, h2⟩
+  exact ⟨h1, fun α => by rw [h2 α, dumpPickle_eval hIs hvs hd α u hu]⟩
+
+/-- loading into the manager the file was dumped from -/
+theorem pickle_roundtrip_same_manager (hF : FoaSpec) (m : Mgr) (hI : Inv m) (hv : VarsOK m.tbl)
+    (hc : m.ctx = false) (roots : Roots) (hsome : roots ≠ .none)
+    (hnc : ∀ u ∈ roots.values, u.natAbs ≠ 1) (f : PickleFile) (hd : dumpPickle m roots = .ok f)
+    (levels : Bool) :
+    ∃ roots' m', loadPickle f levels m = (.ok roots', m') ∧ Inv m' ∧ VarsBij m'.tbl ∧
+      (∀ u n, m.tbl.node? u = some n → m'.tbl.node? u = some n) ∧
+      LoadedAs m.tbl roots m'.tbl roots' :=
+  pickle_roundtrip_declared hF m hI hv roots hsome hnc f hd levels m hI hv.bij hv.contig hc
+    (fun _ _ h => h)
+
+/-- a manager without nodes (fresh, possibly with variables) -/
+structure NodeFree (m : Mgr) : Prop where
+  succ : ∀ u : Nat, m.tbl.succ[u]? = none
+  pred : ∀ k : List Int, m.pred[k]? = none
+  cache : ∀ k : List Int, m.cache[k]? = none
+  free : 2 ≤ m.minFree
+  ref1 : m.ref.contains 1 = true
+
+theorem NodeFree.inv {m : Mgr} (h : NodeFree m) : Inv m := by
+  have hn : ∀ u, m.tbl.node? u = none := h.succ
+  refine ⟨⟨⟨?_, ?_, ?_, ?_, ?_, ?_, ?_, ?_⟩, ?_⟩, ?_, h.free, hn _, h.ref1, ?_, ?_⟩
+  all_goals first
+    | (intro u n hu; rw [hn] at hu; cases hu)
+    | (intro u u' n hu; rw [hn] at hu; cases hu)
+    | skip
+  · intro n u; rw [h.pred, hn]; simp
+  · intro g u v w hc; rw [h.cache] at hc; cases hc
+
+theorem NodeFree.addVar {m m' : Mgr} {var : String} {lvl : Option Int} {j : Nat} (h : NodeFree m)
+    (hav : addVar var lvl m = (.ok j, m')) : NodeFree m' := by
+  rcases addVar_cases hav with ⟨_, h2, _⟩ | ⟨_, _, _, h4⟩
+  · subst h2; exact h
+  · subst h4; exact ⟨h.succ, h.pred, h.cache, h.free, h.ref1⟩
+
+/-- C12, pickle, into a FRESH manager (no nodes; variables, if any, compatible with what the
+loader declares).  Only `FoaSpec` is used. -/
+theorem pickle_roundtrip_fresh (hF : FoaSpec)
+    (src : Mgr) (hIs : Inv src) (hvs : VarsOK src.tbl)
+    (roots : Roots) (hsome : roots ≠ .none) (hnc : ∀ u ∈ roots.values, u.natAbs ≠ 1)
+    (f : PickleFile) (hd : dumpPickle src roots = .ok f)
+    (levels : Bool) (tgt : Mgr) (hN : NodeFree tgt) (hb : VarsBij tgt.tbl) (hc : tgt.ctx = false)
+    (lm : List (Nat × Nat)) (m1 : Mgr)
+    (hv : loadVars levels f.vars.length f.vars [] tgt = (.ok lm, m1))
+    (hg : Contig m1.tbl) (hm : levels = false → MonoMap lm) :
+    ∃ roots' m', loadPickle f levels tgt = (.ok roots', m') ∧ Inv m' ∧ VarsBij m'.tbl ∧
+      LoadedAs src.tbl roots m'.tbl roots' := by
+  obtain ⟨roots', m', e, I, B, _, _, R⟩ :=
+    pickle_load_of_specs hF NodeFree f levels (fun m var _ j m' _ hJ h => hJ.addVar h)
+      (fun _ h => h.inv) tgt hN hb hc (dumpPickle_wf hIs hvs hd)
+      (dumpPickle_rootsOK hIs hd hsome hnc) lm m1 hv hg hm
+  refine ⟨roots', m', e, I, B, ?_⟩
+  rw [roots_container hd] at R
+  apply R.imp_mem
+  intro u hu r ⟨h1, h2⟩
+  exact ⟨h1, fun α => by rw [h2 α, dumpPickle_eval hIs hvs hd α u hu]⟩
 
 
 end DD
